@@ -863,6 +863,41 @@ func ruleC14Direction(c *Ctx, cts []cursorType) {
 		if flag == nil {
 			continue
 		}
+		// ... the selection written as a table keyed by the flag: the true entry is the forward constructor, the
+		// false entry the reverse one
+		for _, b := range fn.Blocks {
+			for _, in := range b.Instrs {
+				lk, isLk := in.(*ssa.Lookup)
+				if !isLk || lk.Index != ssa.Value(flag) {
+					continue
+				}
+				ld, isLd := lk.X.(*ssa.UnOp)
+				if !isLd {
+					continue
+				}
+				g, isG := ld.X.(*ssa.Global)
+				if !isG {
+					continue
+				}
+				entries, okT := constTable(g)
+				if !okT {
+					continue
+				}
+				for _, e := range entries {
+					ef, isF := e.val.(*ssa.Function)
+					if !isF || e.key.Kind() != constant.Bool {
+						continue
+					}
+					d := dirOf(ef)
+					if d != "forward" && d != "reverse" {
+						continue
+					}
+					key := constant.BoolVal(e.key)
+					c.Analysed(FnName(fn))
+					c.Check((key && d == "forward") || (!key && d == "reverse"), "C14.DIRECTION", FnName(fn)+" selects "+FnName(ef), p.Pos(lk.Pos()), "the "+d+" constructor is the table entry for that value of the direction flag", "the direction flag selects the opposite cursor kind: the table maps "+fmt.Sprint(key)+" to the "+d+" constructor")
+				}
+			}
+		}
 		fi := ComputeFacts(fn)
 		for _, call := range callsIn(fn) {
 			ts := cg.CalleesOf(call.Common())
